@@ -650,7 +650,42 @@ func (ex *Exec) typeTag(t types.Type) *Term {
 		id = int64(len(ex.typeTags) + 1)
 		ex.typeTags[k] = id
 	}
+	if _, seen := ex.concTypes[k]; !seen {
+		if _, isIface := under(t).(*types.Interface); !isIface {
+			ex.concTypes[k] = t
+			for ik, it := range ex.ifaceTypes {
+				ex.implAxiom(k, t, ik, it)
+			}
+		}
+	}
 	return ex.ts.Int(id)
+}
+
+// implAxiom fixes implements|I(tag(T)) to what the type checker says.
+func (ex *Exec) implAxiom(tk string, t types.Type, ik string, it *types.Interface) {
+	key := "impl|" + tk + "|" + ik
+	if ex.axiomSeenKey(key) {
+		return
+	}
+	app := ex.ts.App("implements|"+ik, SBool, ex.ts.Int(ex.typeTags[tk]))
+	if types.Implements(t, it) {
+		ex.axioms = append(ex.axioms, app)
+	} else {
+		ex.axioms = append(ex.axioms, ex.ts.Not(app))
+	}
+}
+
+// implementsTerm: does the dynamic type with this tag implement interface it (named ik)?
+func (ex *Exec) implementsTerm(tag *Term, ik string, it *types.Interface) *Term {
+	if it != nil {
+		if _, seen := ex.ifaceTypes[ik]; !seen {
+			ex.ifaceTypes[ik] = it
+			for tk, t := range ex.concTypes {
+				ex.implAxiom(tk, t, ik, it)
+			}
+		}
+	}
+	return ex.ts.App("implements|"+ik, SBool, tag)
 }
 
 func (ex *Exec) makeInterface(v Val, from, to types.Type) Val {
@@ -703,7 +738,7 @@ func (ex *Exec) typeAssert(fr *Frame, x *ssa.TypeAssert) Val {
 		if v.Dyn != nil {
 			okT = ts.Bool(types.Implements(v.DynT, under(target).(*types.Interface)))
 		} else {
-			okT = ts.And(ts.Neq(v.Tag, ts.Int(0)), ts.App("implements|"+typeKey(target), SBool, v.Tag))
+			okT = ts.And(ts.Neq(v.Tag, ts.Int(0)), ex.implementsTerm(v.Tag, typeKey(target), under(target).(*types.Interface)))
 		}
 		r := v
 		r.Typ = target
